@@ -4,7 +4,8 @@ Implementation side: generated grammars and models (harness/procgen.py) in which
 one chosen processor call fails: an object processor (own rule or the abstract
 rule of the holding attribute; on the model root, inner objects, objects of
 imported files) or a match processor (base types, regex / sequence / nested match
-rules; n-th call), raising TextXError / TextXSemanticError without or with
+rules, regexps with
+groups under `use_regexp_group`; n-th call), raising TextXError / TextXSemanticError without or with
 processor-supplied location attributes, or ValueError / KeyError, with or without
 `textxerror_wrap`, loaded from a string, a string with file name, or files.  The
 observed error attributes are compared with `Proc.outcome` (Drivers/Proc.lean, op
@@ -14,7 +15,7 @@ it; the oracle computes the expected location from the generated text alone.
 import os
 
 from harness import procgen as pg
-from harness.core import Check, use_repo
+from harness.core import Check, Rng, use_repo
 from harness.procrun import Run
 
 NAMED = "/nonexistent/dir/named.m"
@@ -68,7 +69,10 @@ class Prop(Check):
     QUICK_CASES = 390
     THOROUGH_CASES = 12000
     RULE = ("generated models with one failing processor call: object processor (own / abstract rule; root, inner, "
-            "imported-file objects) or match processor (base types, regex, sequence, nested match rules), raising "
+            "imported-file objects) or match processor (base types, regex, sequence, nested match rules; regexps without "
+            "group, with one group at / behind the start of the match and on a later line, with two groups, with "
+            "non-capturing groups; a third of the match cases aims at a regexp value), metamodels with/without "
+            "use_regexp_group, memoization, autokwd, ignore_case, textx_tools_support, raising "
             "TextXError/TextXSemanticError with a random subset of location attributes supplied, or ValueError/KeyError, "
             "with/without textxerror_wrap, from string / named string / files, text starting on any line and column; "
             "non-trivial = the failing call happened and the property's hypothesis holds (TextXError, or wrapped)")
@@ -88,19 +92,37 @@ class Prop(Check):
     # ------------------------------------------------------------------ cases
     def gen(self, rng, n, tier):
         made = 0
-        i = 0
+        i = n_match = n_re = 0
+        retry = False  # the dropped case was a match case: so is the next one
         while made < n:
             r = rng.fork(f"case{i}")
             i += 1
-            want_match = r.chance(0.45)
+            want_match = r.chance(0.45) or retry
             case = pg.gen_case(r, multi=False if want_match else None, want_match=want_match, cap=12)
-            if self.decorate(case, r, want_match):
+            # a third of the match cases aims at a value of a regexp match rule (rare among names, references,
+            # numbers); a case without such a value is dropped and the next match case tries again
+            want_re = want_match and 3 * n_re <= n_match
+            if self.decorate(case, r, want_match, want_re=want_re):
+                n_match += want_match
+                n_re += want_re
+                retry = False
                 made += 1
                 yield case
+            else:
+                retry = want_match
 
-    def decorate(self, case, r, want_match):
+    def decorate(self, case, r, want_match, want_re=False):
         schema = case["schema"]
         case["layout"] = r.below(1 << 30)
+        # metamodel configuration and regexp shapes (own stream: the rest of the case is drawn as before)
+        g = Rng(f"c33-config:{case['layout']}")
+        shaped = pg.apply_re_shapes(case, g)
+        opts = schema["opts"]
+        if g.chance(0.65 if shaped else 0.3):
+            opts["use_regexp_group"] = True
+        for name, p in (("memoization", 0.2), ("autokwd", 0.2), ("ignore_case", 0.15), ("textx_tools_support", 0.15)):
+            if g.chance(p):
+                opts[name] = True
         rend = pg.render(case, case["layout"])
         rules = [x["name"] for x in schema["rules"]] + [a["name"] for a in schema["abstracts"]]
         spec = {}
@@ -109,6 +131,15 @@ class Prop(Check):
             if not cands:
                 return False
             k, rule, off, txt = r.choice(cands)
+            # the values of regexp rules (with groups) are few among all matches (names, references, numbers)
+            regex = {m["name"] for m in schema["matches"] if m["kind"] == "re"}
+            special = [c for c in cands if c[1] in shaped]
+            if want_re and not special:
+                special = [c for c in cands if c[1] in regex]
+                if not special:
+                    return False
+            if special and (want_re or g.chance(0.5)):
+                k, rule, off, txt = g.choice(special)
             nth = [m for m in rend.matches if m[1] == rule].index((k, rule, off, txt))
             spec["target"] = {"kind": "match", "rule": rule, "n": nth}
             case["match_reg"] = list(dict.fromkeys([rule] + [m["name"] for m in schema["matches"] if r.chance(0.5)]
@@ -444,6 +475,15 @@ class Prop(Check):
             d[key] = d.get(key, 0) + 1
             if s["supplied"]:
                 d["with-supplied-location"] = d.get("with-supplied-location", 0) + 1
+            opts = c["schema"]["opts"]
+            for name in ("use_regexp_group", "memoization", "autokwd", "ignore_case", "textx_tools_support"):
+                if opts.get(name):
+                    d["opt:" + name] = d.get("opt:" + name, 0) + 1
+            if s["target"]["kind"] == "match":
+                m = {x["name"]: x for x in c["schema"]["matches"]}.get(s["target"]["rule"])
+                if m and m["kind"] == "re":
+                    key = f"regexp-target/{m.get('shape', 'plain')}/{'group' if opts.get('use_regexp_group') else 'nogroup'}"
+                    d[key] = d.get(key, 0) + 1
             if len(c["files"]) > 1 and s["target"]["kind"] == "obj":
                 d["multi-file"] = d.get("multi-file", 0) + 1
         return {"distribution": d}
